@@ -15,6 +15,8 @@ use crate::global::{
 pub struct ConfigDatabase {
     db: DB,
     cache: HashMap<String, String>,
+    #[cfg(brc20_verif)]
+    verif_name: String,
 }
 
 impl ConfigDatabase {
@@ -26,6 +28,8 @@ impl ConfigDatabase {
         Ok(Self {
             db,
             cache: HashMap::new(),
+            #[cfg(brc20_verif)]
+            verif_name: name.to_string(),
         })
     }
 
@@ -40,12 +44,16 @@ impl ConfigDatabase {
     }
 
     pub fn set(&mut self, key: String, value: String) -> Result<(), Box<dyn Error>> {
+        #[cfg(brc20_verif)]
+        crate::verif::persist(&self.verif_name, "cfg", "put")?;
         self.db.put(&key.encode_vec(), &value.encode_vec())?;
         self.cache.insert(key, value);
         Ok(())
     }
 
     pub fn flush(&self) -> Result<(), Box<dyn Error>> {
+        #[cfg(brc20_verif)]
+        crate::verif::persist(&self.verif_name, "cfg", "flush")?;
         self.db.flush().map_err(|e| e.into())
     }
 
